@@ -40,7 +40,18 @@ def src_lines(g, nsrc, rot=0):
     if rot % 3 == 2:
         # cleanup code runs after the raising line: the reported line is still the line that raised
         return ['>>> try:', '...     print(1 // (2 - %d))' % g, '... finally: y%d = 0' % g]
+    if rot % 7 == 3:
+        # the exception raised at run time carries a line number of its own (a SyntaxError from compile(): line 1 of THAT text,
+        # a json error likewise): the reported line is the line of the doctest statement
+        return ['>>> y%d = [1,' % g, '...       2]', ">>> print(eval(compile('1 +' if %d == 2 else '1', 'inner text', 'eval')))" % g]
     return ['>>> y%d = [1,' % g, '...       2]', '>>> print(1 // (2 - %d))' % g][:nsrc]
+
+
+def src_fail_type(nsrc, rot=0):
+    """name of the exception a failing group raises"""
+    if nsrc == 3 and rot % 3 not in (1, 2) and rot % 7 == 3:
+        return 'SyntaxError'
+    return 'ZeroDivisionError'
 
 
 def src_fail_index(nsrc, rot=0):
